@@ -119,7 +119,9 @@ def c10(tier):
                 c["id"], {"p": "parser", "l": "lexer", "r": "parser/lexer"}[kind]), rp)
     # ---- lexer tables against the rules, all strings (as-built non-greedy meaning)
     lcases = [tlc_lcase(c) for c in lacc]
-    jobs = [{"c": ci + 1, "m": mi + 1} for ci, c in enumerate(lacc) for mi in range(len(c["modes"]))]
+    # (a specification whose number of emitted mode tables differs from its number of modes was reported by TableObs above)
+    jobs = [{"c": ci + 1, "m": mi + 1} for ci, c in enumerate(lacc) for mi in range(len(c["modes"]))
+            if len(c["gen"].get("tables", [])) == len(c["modes"])]
     pbad, rp_ = run_product(sc, lcases, jobs, timeout=2400)
     for b in pbad:
         j = jobs[b["j"]]
